@@ -236,6 +236,22 @@ CLAIMED = {
          "DESIGN.md §6 C15"),
 }
 
+# clauses added after the third held-out batch (DESIGN.md §10.4), appended to the level text of the property
+EXTRA = {
+ "C02": " Tasks.GetMesosCommandTargets: every task of the list becomes a command target (an unlocked task yields an error, it is not skipped).",
+ "C03": " handleDeviceEvent resolves the environment of an internal error from the task's parent role (the one that owns it); HandleAgentFailed reaches every task on the lost agent (loop invariant).",
+ "C05": " resourceOffers: an offer that was taken off the decline list is answered with ACCEPT, also when no task could be assembled on it.",
+ "C06": " acquireTasks: when a deployment is given up every task launched for it is un-parented before it is reported as deployed-but-unused.",
+ "C08": " callRole.GetHooksMapForTrigger hands out a fresh Call per lookup (a pending execution is never overwritten by a restart).",
+ "C09": " (*Call).Call: a hook expression that cannot be evaluated, or whose execution fails, makes the call return a non-nil error.",
+ "C12": " commit builds the placeholder error response of an unanswered target for that target (not reused across targets).",
+ "C13": " roleBase.copy: the copy's Connect slice has its own backing array (append is modelled with in-place growth, so re-slicing the source is caught).",
+ "C17": " pidExists probes a process group (negative pid) through its leader instead of answering from the sign.",
+ "C18": " BuildFrameworkInfo announces the failover timeout whenever one is configured (mesos-go re-subscribes under the stored framework id only then).",
+ "C19": " ClearEventWriters calls Close on every registered writer before the registry is cleared (map range with visited-set invariant; clear() modelled).",
+ "C20": " YamlSource.Exists reports an error only if the store cannot be read or an array index is malformed; a path that runs into a plain value is 'absent'.",
+}
+
 NOT_APPLICABLE = {
 }
 
@@ -273,6 +289,7 @@ def main():
         pid = p['id']
         if pid in CLAIMED:
             text, note, ref = CLAIMED[pid]
+            text += EXTRA.get(pid, "")
             m["checks"].append({
                 "property_id": pid,
                 "quick_cmd": f"./check {pid} quick",
